@@ -176,14 +176,15 @@ func execC01Lib(c C01Case) *Failure {
 		clients = append(clients, lc)
 	}
 	type result struct {
-		nonce string
-		size  int
-		text  string
-		err   error
-		n     int
-		fail  bool
-		list  bool
-		unenc bool
+		nonce  string
+		size   int
+		text   string
+		err    error
+		n      int
+		fail   bool
+		list   bool
+		unenc  bool
+		noargs bool
 	}
 	var mu sync.Mutex
 	var results []result
@@ -257,8 +258,13 @@ func execC01Lib(c C01Case) *Failure {
 					req := &mcp.CallToolRequest{}
 					req.Params.Name = "echo"
 					req.Params.Arguments = map[string]interface{}{"nonce": nonce, "size": size, "lat": lat, "fail": fail, "unenc": unenc}
+					noargs := !fail && !unenc && k%5 == 2
+					if noargs {
+						// a call that carries no arguments at all is answered from no arguments (not from what an earlier call left behind)
+						req.Params.Arguments = nil
+					}
 					res, err := lc.C.CallTool(ctx, req)
-					r := result{nonce: nonce, size: size, err: err, fail: fail, unenc: unenc}
+					r := result{nonce: nonce, size: size, err: err, fail: fail, unenc: unenc, noargs: noargs}
 					if err == nil {
 						r.n = len(res.Content)
 						if len(res.Content) == 1 {
@@ -324,6 +330,12 @@ func execC01Lib(c C01Case) *Failure {
 			}
 			return f
 		}
+		if r.noargs {
+			if r.text != c01Answer("", 0) {
+				return Failf("C01/lib/foreign-answer/"+c.Mode.String(), "%s: call %s, sent without arguments, received %.80q; a handler given no arguments answers %q", where, r.nonce, r.text, c01Answer("", 0))
+			}
+			continue
+		}
 		if r.text != c01Answer(r.nonce, r.size) {
 			return Failf("C01/lib/foreign-answer/"+c.Mode.String(), "%s: call %s received %.80q (%d bytes, %d items), its own answer is %.80q (%d bytes)", where, r.nonce, r.text, len(r.text), r.n, c01Answer(r.nonce, r.size), len(c01Answer(r.nonce, r.size)))
 		}
@@ -355,7 +367,7 @@ func execC01Lib(c C01Case) *Failure {
 		w.callMu.Unlock()
 	}
 	for _, r := range results {
-		if r.list {
+		if r.list || r.noargs {
 			continue
 		}
 		if n := counts["echo:"+r.nonce]; n != 1 {
